@@ -279,7 +279,7 @@ RULES.append(("C14.i", "await inventory: only futures whose completion rule is c
 
 def rule_mustpass(ctx):
     from . import mustpass
-    mustpass.check(ctx, ['requestor-send-broadcasts', 'output-broadcast-polls', 'source-broadcast-polls', 'connect-registers', 'cached-write-bumps-epoch'])
+    mustpass.check(ctx, ['requestor-send-broadcasts', 'output-broadcast-polls', 'source-broadcast-polls', 'connect-registers', 'cached-write-bumps-epoch', 'scratchpad-refreshes-when-behind', 'scratchpad-copies-shared-value'])
 
 
 RULES.append(("C14.j", "must-pass-through: no path around the effects this property rests on (added fast paths / early returns)", rule_mustpass))
